@@ -1602,3 +1602,331 @@ def const_name(module: Module, folder: Folder, value: t.Any) -> str:
         elif v is value:
             return nm
     return show(value)[:40]
+
+
+# ---------------------------------------------------------------------
+# regex languages: for which subjects does ``RX.<method>(subject)`` succeed?
+#
+# The pattern's re._parser tree is compiled into a nondeterministic automaton over a finite partition of the code
+# points ("atoms": maximal intervals on which every character test of the pattern, and every cut the caller asks
+# for, is constant).  match / fullmatch / search differ in what may surround the matched text; the anchors ^ $ \A \Z
+# (with or without re.M) are zero-width tests on "is this the start of the subject", "was the previous character a
+# newline" and on a *promise* about the rest of the subject that later steps have to keep (nothing follows / a newline
+# follows / exactly one newline follows and ends the subject).  Success of a backtracking match is the existence of an
+# accepting run, so questions about the accepted set are reachability questions on the determinised automaton.
+# Constructs whose acceptance is not the existence of a run (possessive / atomic groups) or that need more context
+# (look-around, back-references, \b) raise Unfoldable: exit 2, never a finding.
+
+import re  # noqa: E402
+
+from ..fold import sre_c, sre_parse  # noqa: E402
+
+_FUT_ANY, _FUT_NL, _FUT_NL_END, _FUT_END = 0, 1, 2, 3  # promise about the rest of the subject
+_REPEAT_COPIES = 64
+_NFA_STATES = 4000
+_UNI_CACHE: dict[str, t.Any] = {}
+
+
+def _ascii_category(name: str, c: int) -> bool:
+    if name.endswith("DIGIT"):
+        return 48 <= c <= 57
+    if name.endswith("SPACE"):
+        return c in (9, 10, 11, 12, 13, 32)
+    if name.endswith("WORD"):
+        return 48 <= c <= 57 or 65 <= c <= 90 or 97 <= c <= 122 or c == 95
+    raise Unfoldable(f"regex category {name}")
+
+
+def _unicode_category(name: str, c: int) -> bool:
+    ch = chr(c)
+    if name.endswith("DIGIT"):
+        return ch.isdecimal()
+    if name.endswith("SPACE"):
+        return ch.isspace()
+    if name.endswith("WORD"):
+        return ch.isalnum() or c == 95
+    raise Unfoldable(f"regex category {name}")
+
+
+def _unicode_cuts(name: str) -> list[int]:
+    """the code points at which a Unicode category changes its value"""
+    key = "cuts:" + name.rsplit("_", 1)[-1]
+    if key not in _UNI_CACHE:
+        cuts, prev = [], False
+        for c in range(0x110000):
+            cur = _unicode_category(name, c)
+            if cur != prev:
+                cuts.append(c)
+                prev = cur
+        _UNI_CACHE[key] = cuts
+    return _UNI_CACHE[key]
+
+
+def _cased() -> dict[int, frozenset[int]]:
+    """code point -> the code points re.IGNORECASE identifies it with (simple one-character lower/upper mappings, closed)"""
+    if "cased" not in _UNI_CACHE:
+        grp: dict[int, set[int]] = {}
+        for c in range(0x110000):
+            ch = chr(c)
+            vs = {c}
+            for v in (ch.lower()[:1], ch.upper()):  # (str.lower of U+0130 is two characters; its simple mapping is the first)
+                if len(v) == 1:
+                    vs.add(ord(v))
+                    for w in (v.lower(), v.upper()):
+                        if len(w) == 1:
+                            vs.add(ord(w))
+            if len(vs) > 1:
+                for v in vs:
+                    grp.setdefault(v, set()).update(vs)
+        _UNI_CACHE["cased"] = {c: frozenset(vs) for c, vs in grp.items()}
+    return _UNI_CACHE["cased"]
+
+
+class RegexLang:
+    """the subjects accepted by ``rx.<method>(subject)``, ``method`` one of fullmatch / match / search"""
+
+    def __init__(self, rx: RegexConst, method: str, cuts: t.Iterable[int] = ()):
+        if method not in ("fullmatch", "match", "search"):
+            raise Unfoldable(f"regex method {method}")
+        self.rx, self.method = rx, method
+        self.is_bytes = isinstance(rx.pattern, bytes)
+        self.universe = 256 if self.is_bytes else 0x110000
+        tree = sre_parse.parse(rx.pattern, rx.flags)
+        flags = int(tree.state.flags)
+        if flags & re.L:
+            raise Unfoldable("re.LOCALE pattern")
+        self._edges: list[list[tuple]] = []
+        self._tests: list[t.Callable[[int], bool]] = [lambda c: True]  # test 0: any character
+        self._cuts: set[int] = {0, self.universe, 10, 11, *(c for c in cuts if 0 <= c <= self.universe)}
+        self.anchors: list[str] = []
+        first = self._new()
+        start = first
+        if method == "search":
+            self._edges[first].append(("c", 0, first))
+            start = self._new()
+            self._edges[first].append(("e", start))
+        acc = self._build(tree, flags, start)
+        if method != "fullmatch":
+            post = self._new()
+            self._edges[acc].append(("e", post))
+            self._edges[post].append(("c", 0, post))
+            acc = post
+        self.first, self.final = first, acc
+        pts = sorted(self._cuts)
+        self.atoms: list[int] = pts[:-1]  # representative (lowest) code point of every atom
+        self.bounds: list[int] = pts
+        self._sets = [frozenset(i for i, r in enumerate(self.atoms) if test(r)) for test in self._tests]
+        self.nl = self.atoms.index(10)
+        self._step: dict[tuple[frozenset, int], frozenset] = {}
+
+    # -- construction ---------------------------------------------------
+    def _new(self) -> int:
+        if len(self._edges) >= _NFA_STATES:
+            raise Unfoldable(f"pattern {self.rx.pattern!r}: automaton too large")
+        self._edges.append([])
+        return len(self._edges) - 1
+
+    def _ascii(self, flags: int) -> bool:
+        return self.is_bytes or bool(flags & re.A)
+
+    def _consume(self, cur: int, base: t.Callable[[int], bool], neg: bool, cuts: t.Iterable[int], flags: int) -> int:
+        """an edge reading one character c with ``base(c) != neg``; under re.I ``base`` is asked about every case variant of c"""
+        self._cuts.update(c for c in cuts if 0 <= c <= self.universe)
+        fold = base
+        if flags & re.I:
+            if self._ascii(flags):
+                for c in (*range(65, 91), *range(97, 123)):
+                    self._cuts.update((c, c + 1))
+
+                def fold(c: int) -> bool:
+                    return base(c) or ((65 <= c <= 90 or 97 <= c <= 122) and base(c ^ 0x20))
+
+            else:
+                cased = _cased()
+                for c in cased:
+                    self._cuts.update((c, c + 1))
+
+                def fold(c: int) -> bool:
+                    return base(c) or any(base(v) for v in cased.get(c, ()))
+
+        self._tests.append(lambda c: fold(c) != neg)
+        nxt = self._new()
+        self._edges[cur].append(("c", len(self._tests) - 1, nxt))
+        return nxt
+
+    def _class(self, items: t.Any, flags: int) -> tuple[t.Callable[[int], bool], bool, list[int]]:
+        ascii_ = self._ascii(flags)
+        neg = False
+        tests: list[t.Callable[[int], bool]] = []
+        cuts: list[int] = []
+        for op, av in items:
+            if op is sre_c.NEGATE:
+                neg = True
+            elif op is sre_c.LITERAL:
+                tests.append(lambda c, av=av: c == av)
+                cuts += [av, av + 1]
+            elif op is sre_c.RANGE:
+                lo, hi = av
+                tests.append(lambda c, lo=lo, hi=hi: lo <= c <= hi)
+                cuts += [lo, hi + 1]
+            elif op is sre_c.CATEGORY:
+                name = str(av)
+                inv = "NOT_" in name
+                name = name.replace("NOT_", "")
+                if ascii_:
+                    tests.append(lambda c, name=name, inv=inv: (c < 128 and _ascii_category(name, c)) != inv)
+                    cuts += [c for c in range(129) if (c < 128 and _ascii_category(name, c)) != (c > 0 and _ascii_category(name, c - 1))]
+                else:
+                    tests.append(lambda c, name=name, inv=inv: _unicode_category(name, c) != inv)
+                    cuts += _unicode_cuts(name)
+            else:
+                raise Unfoldable(f"regex class item {op}")
+        return (lambda c: any(f(c) for f in tests)), neg, cuts
+
+    def _build(self, seq: t.Any, flags: int, cur: int) -> int:
+        for op, av in seq:
+            if op is sre_c.LITERAL:
+                cur = self._consume(cur, lambda c, av=av: c == av, False, (av, av + 1), flags)
+            elif op is sre_c.NOT_LITERAL:
+                cur = self._consume(cur, lambda c, av=av: c == av, True, (av, av + 1), flags)
+            elif op is sre_c.ANY:
+                cur = self._consume(cur, (lambda c: True) if flags & re.S else (lambda c: c != 10), False, (10, 11), flags & ~re.I)
+            elif op is sre_c.IN:
+                base, neg, cuts = self._class(av, flags)
+                cur = self._consume(cur, base, neg, cuts, flags)
+            elif op in (sre_c.MAX_REPEAT, sre_c.MIN_REPEAT):
+                lo, hi, sub = av
+                inf = hi is sre_c.MAXREPEAT
+                if lo > _REPEAT_COPIES or (not inf and hi - lo > _REPEAT_COPIES):
+                    raise Unfoldable(f"pattern {self.rx.pattern!r}: repeat count too large to unroll")
+                for _ in range(lo):
+                    cur = self._build(sub, flags, cur)
+                if inf:
+                    loop = self._new()
+                    self._edges[cur].append(("e", loop))
+                    end = self._build(sub, flags, loop)
+                    self._edges[end].append(("e", loop))
+                    cur = loop
+                else:
+                    out = self._new()
+                    for _ in range(hi - lo):
+                        self._edges[cur].append(("e", out))
+                        cur = self._build(sub, flags, cur)
+                    self._edges[cur].append(("e", out))
+                    cur = out
+            elif op is sre_c.BRANCH:
+                out = self._new()
+                for alt in av[1]:
+                    s = self._new()
+                    self._edges[cur].append(("e", s))
+                    self._edges[self._build(alt, flags, s)].append(("e", out))
+                cur = out
+            elif op is sre_c.SUBPATTERN:
+                _group, add, rem, sub = av
+                cur = self._build(sub, (flags | add) & ~rem, cur)
+            elif op is sre_c.AT:
+                code = {sre_c.AT_BEGINNING: "^", sre_c.AT_BEGINNING_STRING: "\\A", sre_c.AT_END: "$", sre_c.AT_END_STRING: "\\Z"}.get(av)
+                if code is None:
+                    raise Unfoldable(f"regex anchor {av}")
+                self.anchors.append(code + ("(re.M)" if flags & re.M and code in "^$" else ""))
+                nxt = self._new()
+                self._edges[cur].append(("a", code, bool(flags & re.M), nxt))
+                cur = nxt
+            else:
+                raise Unfoldable(f"regex node {op}: the set of subjects accepted by {self.rx.pattern!r} is not computed")
+        return cur
+
+    # -- runs ----------------------------------------------------------------
+    def _closure(self, seeds: t.Iterable[tuple]) -> frozenset:
+        seen = set(seeds)
+        work = list(seen)
+
+        def add(x: tuple) -> None:
+            if x not in seen:
+                seen.add(x)
+                work.append(x)
+
+        while work:
+            q, st, pn, fut = work.pop()
+            for e in self._edges[q]:
+                if e[0] == "e":
+                    add((e[1], st, pn, fut))
+                elif e[0] == "a":
+                    _k, code, multi, dst = e
+                    if code == "\\A" or (code == "^" and not multi):
+                        if st:
+                            add((dst, st, pn, fut))
+                    elif code == "^":
+                        if st or pn:
+                            add((dst, st, pn, fut))
+                    else:
+                        if fut in (_FUT_ANY, _FUT_END):
+                            add((dst, st, pn, _FUT_END))  # the subject ends here
+                        if code == "$" and fut != _FUT_END:
+                            if multi:  # ... or a newline follows
+                                add((dst, st, pn, _FUT_NL if fut == _FUT_ANY else fut))
+                            else:  # ... or exactly one newline follows and ends the subject
+                                add((dst, st, pn, _FUT_NL_END))
+        return frozenset(seen)
+
+    def initial(self) -> frozenset:
+        return self._closure([(self.first, True, False, _FUT_ANY)])
+
+    def step(self, states: frozenset, atom: int) -> frozenset:
+        key = (states, atom)
+        got = self._step.get(key)
+        if got is None:
+            is_nl = atom == self.nl
+            out = set()
+            for q, _st, _pn, fut in states:
+                if fut == _FUT_END or (fut != _FUT_ANY and not is_nl):
+                    continue
+                nf = _FUT_ANY if fut in (_FUT_ANY, _FUT_NL) else _FUT_END
+                for e in self._edges[q]:
+                    if e[0] == "c" and atom in self._sets[e[1]]:
+                        out.add((e[2], False, is_nl, nf))
+            got = self._step[key] = self._closure(out)
+        return got
+
+    def accepting(self, states: frozenset) -> bool:
+        return any(q == self.final and fut in (_FUT_ANY, _FUT_END) for q, _st, _pn, fut in states)
+
+
+def find_subject(
+    langs: t.Sequence[RegexLang],
+    mon0: t.Any,
+    mon_step: t.Callable[[t.Any, int], t.Any],
+    hit: t.Callable[[tuple, t.Any], bool],
+    max_states: int = 20000,
+) -> list[int] | None:
+    """the shortest subject (as representative code points) after which ``hit((accepted by langs[0], ...), monitor)`` holds,
+    None when no subject does.  ``mon_step(monitor, code point)`` -> next monitor state, or None to forbid the character."""
+    atoms = langs[0].atoms
+    if any(l.atoms != atoms for l in langs):
+        raise Unfoldable("languages over different alphabets")
+    start = (tuple(l.initial() for l in langs), mon0)
+    parent: dict[tuple, tuple | None] = {start: None}
+    queue = [start]
+    i = 0
+    while i < len(queue):
+        cur = queue[i]
+        i += 1
+        sets, mon = cur
+        if hit(tuple(l.accepting(s) for l, s in zip(langs, sets)), mon):
+            word: list[int] = []
+            node: tuple | None = cur
+            while parent[node] is not None:  # type: ignore[index]
+                node, a = parent[node]  # type: ignore[index,misc]
+                word.append(atoms[a])
+            return word[::-1]
+        for a, rep in enumerate(atoms):
+            m2 = mon_step(mon, rep)
+            if m2 is None:
+                continue
+            nxt = (tuple(l.step(s, a) for l, s in zip(langs, sets)), m2)
+            if nxt not in parent:
+                parent[nxt] = (cur, a)
+                queue.append(nxt)
+                if len(queue) > max_states:
+                    raise Unfoldable("regex language: too many automaton states")
+    return None
